@@ -1270,3 +1270,181 @@ func TestVerifC16(t *testing.T) {
 		t.Logf("C16: cases=%d nontrivial=%d steps=%d violations=%d", rep.Cases, rep.Nontrivial, rep.Steps, len(rep.Violations))
 	})
 }
+
+// ------------------------------------------------------------------ C05 (FEC decoder part)
+
+// TestVerifC05Fec feeds the REAL decoder arbitrary and forged packets interleaved with genuine
+// traffic.  Monitors (property text of C05: no datagram can crash or bloat the process):
+//   fec-decode-panic        decode panics on a packet of 8..1500 bytes
+//   fec-shardset-unbounded  more than maxShardSets+1 groups are held (the proven bound K), a group
+//                           holds >= dataShards packets, or the autotune ring exceeds its capacity
+// Logged for the model comparison are the cases whose forged packets are well typed for their
+// position (then the decoder never tunes, so the unspecified order of sort.Slice on windows
+// spanning >= 2^31 ids is not observable); arbitrary bytes / types run for the monitors only.
+func fecCaseC05(lg *fecLogger, r *vrng, rep *vreport, id int, d, p int, wellTyped bool) {
+	ss := uint32(d + p)
+	paws := uint32(0xffffffff) / ss * ss
+	K := maxShardSets + 1
+	base, posName := fecPositions(r, ss)
+	lg.printf("C %d C05 d=%d p=%d %s welltyped=%v\n", id, d, p, posName, wellTyped)
+	rep.Distribution[posName]++
+	snd := fecNewSender(lg, d, p, 0, base)
+	var stream [][]byte
+	for gi := 0; gi < 6+r.intn(10); gi++ {
+		g := snd.group(lg, r, fecSizes(r, r.intn(4), d, 0), r.chance(10), rep, false)
+		stream = append(stream, g.pkts...)
+	}
+	dec := newFECDecoder(d, p)
+	lg.printf("D %d %d\n", d, p)
+	var trace []string
+	forge := func(last []byte) []byte {
+		var seq uint32
+		kind := r.intn(10)
+		newest := dec.newestShardId * uint32(dec.shardSize)
+		switch kind {
+		case 0:
+			seq = 0
+		case 1:
+			seq = paws - 1
+		case 2:
+			seq = paws - ss
+		case 3:
+			seq = 0x80000000 + uint32(r.intn(7)) - 3
+		case 4:
+			seq = 0xffffffff - uint32(r.intn(3))
+		case 5: // exactly 2^31 ids from the newest group: int32 difference -2^31 in both directions
+			seq = newest + 0x80000000 + uint32(r.intn(int(ss)))
+		case 6: // almost 2^31 ahead of the newest
+			seq = newest + 0x80000000 - uint32(1+r.intn(4*int(ss)))
+		case 7: // just behind / ahead of the newest
+			seq = newest + uint32(r.intn(9*int(ss))) - 4*ss
+		case 8:
+			seq = uint32(r.u64())
+		default:
+			seq = uint32(r.u64()) % paws
+		}
+		n := 8 + r.intn(24)
+		if r.chance(5) {
+			n = r.pick(8, 9, mtuLimit-1, mtuLimit)
+		}
+		pkt := r.bytes(n)
+		if len(last) >= 8 && r.chance(50) {
+			pkt = append([]byte(nil), last...) // a valid packet with its header fields replaced
+		}
+		binary.LittleEndian.PutUint32(pkt, seq)
+		ty := uint16(typeParity)
+		if int(seq%uint32(dec.shardSize)) < dec.dataShards {
+			ty = typeData
+		}
+		if !wellTyped {
+			switch r.intn(6) {
+			case 0:
+				ty = typeData
+			case 1:
+				ty = typeParity
+			case 2:
+				ty = typeOOB
+			case 3:
+				ty = uint16(r.u64())
+			}
+		}
+		binary.LittleEndian.PutUint16(pkt[4:], ty)
+		rep.Distribution[fmt.Sprintf("forged-kind:%d", kind)]++
+		if !wellTyped && r.chance(30) {
+			pkt = r.bytes(8 + r.intn(1493)) // arbitrary bytes, any length 8..1500
+			rep.Distribution["random-bytes"]++
+		}
+		return pkt
+	}
+	feed := func(pkt []byte, what string) bool {
+		_, panicked := fecDecode(lg, dec, pkt)
+		rep.Steps++
+		trace = append(trace, hx(pkt[:min(8, len(pkt))]))
+		if len(trace) > 400 {
+			trace = trace[len(trace)-400:]
+		}
+		rep.Monitors["fec-decode-panic"]++
+		if panicked {
+			fecViolate(rep, "fec-decode-panic", fmt.Sprintf("fecDecoder.decode panicked on a %s packet of %d bytes", what, len(pkt)),
+				map[string]any{"d": d, "p": p, "pkt": hx(pkt), "history(header)": trace})
+			return false
+		}
+		rep.Monitors["fec-shardset-unbounded"]++
+		worst := 0
+		for _, s := range dec.shardSet {
+			worst = max(worst, len(s.elements))
+		}
+		if len(dec.shardSet) > K || worst >= dec.dataShards || dec.autoTune.count > maxAutoTuneSamples {
+			fecViolate(rep, "fec-shardset-unbounded", fmt.Sprintf("the decoder holds %d groups (bound %d), largest group %d packets (dataShards %d), ring %d",
+				len(dec.shardSet), K, worst, dec.dataShards, dec.autoTune.count),
+				map[string]any{"d": d, "p": p, "history(header)": trace})
+			return false
+		}
+		if v, _ := rep.Extra["max_groups_held"].(int); len(dec.shardSet) > v {
+			rep.Extra["max_groups_held"] = len(dec.shardSet)
+		}
+		return true
+	}
+	var last []byte
+	for _, pk := range stream {
+		if !feed(pk, "genuine") {
+			return
+		}
+		last = pk
+		for r.chance(45) {
+			if !feed(forge(last), "forged") {
+				return
+			}
+		}
+	}
+	// a targeted burst: the stream advances group by group, a forged group 2^31 ids ahead each time
+	if r.chance(50) {
+		rep.Distribution["antipodal-burst"]++
+		cur := dec.newestShardId * uint32(dec.shardSize)
+		for i := 0; i < 12; i++ {
+			cur += uint32(dec.shardSize)
+			for _, s := range []uint32{cur, cur + 0x80000000} {
+				if s >= dec.paws {
+					continue
+				}
+				pkt := make([]byte, 12)
+				binary.LittleEndian.PutUint32(pkt, s)
+				ty := uint16(typeParity)
+				if int(s%uint32(dec.shardSize)) < dec.dataShards {
+					ty = typeData
+				}
+				binary.LittleEndian.PutUint16(pkt[4:], ty)
+				if !feed(pkt, "forged") {
+					return
+				}
+			}
+		}
+	}
+	rep.Cases++
+	rep.Nontrivial++ // every case mixes genuine and forged packets
+}
+
+func TestVerifC05Fec(t *testing.T) {
+	synctest.Test(t, func(t *testing.T) {
+		r := fecRng(2)
+		rep := newReport("C05")
+		lg := &fecLogger{l: newVlog(t, "C05fec.log"), on: true}
+		defer lg.l.close()
+		n := 300
+		if vThorough() {
+			n = 6000
+		}
+		cfgs := [][2]int{{1, 1}, {2, 2}, {3, 1}, {2, 1}, {3, 2}, {10, 3}, {5, 3}, {12, 4}, {4, 3}, {1, 3}, {6, 2}}
+		for id := 1; id <= n; id++ {
+			c := cfgs[r.intn(len(cfgs))]
+			wellTyped := id%2 == 0
+			lg.on = wellTyped
+			fecCaseC05(lg, r, rep, id, c[0], c[1], wellTyped)
+		}
+		lg.on = true
+		lg.printf("X\n")
+		rep.Extra["bound_K_groups"] = maxShardSets + 1
+		rep.write(t, "C05fec.report.json")
+		t.Logf("C05fec: cases=%d steps=%d violations=%d", rep.Cases, rep.Steps, len(rep.Violations))
+	})
+}
